@@ -19,11 +19,11 @@ static PyObject* PyCHist_chist(PyObject* self, PyObject* args) {
     npy_int64 *hist=NULL, *rev=NULL;
 
     int dorev=0;
-    npy_intp nbin = 0, ndata=0, nrev=0;
+    npy_intp nbin = 0, ndata=0;
     npy_int64
         i=0,
         binnum_old = 0,
-        offset = 0, data_index = 0, binnum=0, tbin = 0;
+        offset = 0, data_index = 0, binnum=0, tbin = 0, rev_end = 0;
     double thisdata=0;
 
     if (!PyArg_ParseTuple(args, (char*)"OdOdOO",
@@ -39,7 +39,6 @@ static PyObject* PyCHist_chist(PyObject* self, PyObject* args) {
     if (rev_pyobj != Py_None) {
         dorev=1;
         rev = (npy_int64 *) PyArray_DATA(rev_pyobj);
-        nrev = PyArray_SIZE(rev_pyobj);
     }
 
     ndata = PyArray_SIZE(sort_pyobj);
@@ -50,6 +49,7 @@ static PyObject* PyCHist_chist(PyObject* self, PyObject* args) {
     // this is my reverse engineering of the IDL reverse
     // indices
     binnum_old = -1;
+    rev_end = nbin + 1;
 
     for (i=0; i<ndata; i++) {
 
@@ -79,13 +79,17 @@ static PyObject* PyCHist_chist(PyObject* self, PyObject* args) {
             // Update the histogram
             hist[binnum] = hist[binnum] + 1;
             binnum_old = binnum;
+            // one past the last datum that was counted
+            rev_end = offset + 1;
         }
     }
 
+    // close the remaining offsets after the last counted datum: data
+    // beyond the last bin are not part of any bin's slice
     tbin = binnum_old + 1;
     while (tbin <= nbin) {
         if (dorev) {
-            rev[tbin] = nrev;
+            rev[tbin] = rev_end;
         }
         tbin++;
     }
